@@ -67,7 +67,8 @@ func (t *Schema) Extend(x Type) error {
 
 // Validate a type.
 func (t *Schema) Validate(root *Root) (errs []error) {
-	for name, f := range t.fields.dict {
+	for _, f := range t.fields.list {
+		name := f.N
 		switch name {
 		case "query", "mutation", "subscription":
 			// ok
